@@ -36,7 +36,7 @@ class C09(C01):
             if len(d) >= 4 and d[0] != 0 and (quick or len(d) == 5 or d[1] not in (1, 4, 5)):
                 continue          # opcodes >= 256 all fall into the same "unknown opcode" class; keep a sample
             for (opts, pre) in points:
-                for a in (0, 1, 2, 4):
+                for a in (0, 1, 2, 4, 5):
                     if quick and a >= 1 and len(d) >= 3:
                         continue
                     ev = pre + [(5, a, d), (9, 0, T.ack(2 if pre else (0 if opts else 1)))]
@@ -53,7 +53,7 @@ class C09(C01):
             else:
                 d = bytes(rng.randrange(256) for _ in range(rng.randrange(0, 8)))
             (opts, pre) = rng.choice(points)
-            a = rng.choice([0, 0, 1, 2, 3, 4])
+            a = rng.choice([0, 0, 1, 2, 3, 4, 5, 6])
             t = rng.choice([0, 5, 2047, 2048])
             ev = pre + [(t, a, d), (t + 1, 0, T.ack(2 if pre else (0 if opts else 1))), (t + 2, 0, T.ack(1 if opts else 2))]
             yield T.mk_case(content, [], options=opts, retries=rng.choice([0, 1, 2]), events=ev,
